@@ -180,6 +180,7 @@ pub fn run_profile(a: &RunArgs, profile: &str, exe: &str, replay_dir: &str) -> P
     let mut found: Vec<Found> = Vec::new();
     let mut harness_errors = Vec::new();
     let mut deaths = 0u64;
+    let mut death_classes: BTreeMap<String, u64> = BTreeMap::new();
     let mut truncated = false;
     let mut active = w;
     while active > 0 {
@@ -242,7 +243,16 @@ pub fn run_profile(a: &RunArgs, profile: &str, exe: &str, replay_dir: &str) -> P
                 if kind == "abort" && detail.contains("harness") {
                     harness_errors.push(format!("worker {}: {}", k, detail));
                 }
-                if counts {
+                let class_key = format!("{}|{}", kind, msg);
+                let seen_of_class = {
+                    let e = death_classes.entry(class_key).or_insert(0u64);
+                    *e += 1;
+                    *e
+                };
+                if counts && seen_of_class > 12 {
+                    // same kind of death again: counted, not turned into yet another replay file
+                    *total.counters.entry("violations:further-deaths-of-a-known-class".into()).or_insert(0) += 1;
+                } else if counts {
                     let job = props::make_job(&ctx, &a.prop, j);
                     let plan = job.plan(&ctx, s);
                     let v = Violation {
